@@ -3,6 +3,7 @@ from core import Case, enc_b, enc_s
 from props.cardutil import digits, rb
 
 OBLIGATIONS = ["Psec.Props.C11.intermediate_eq_spec", "Psec.Props.C11.ibm_pin_eq_spec", "Psec.Props.C11.ibm_offset_eq_spec", "Psec.Props.C11.ibm_lengths_and_inverses", "Psec.Props.C11.sub_add_inv", "Psec.Props.C11.add_sub_inv", "Psec.Props.C11.ibm_pad_case"]
+TABLE_OBLIGATIONS = ["Psec.Tables.ibm_alphabet_agree", "Psec.Tables.ascii_n_agree"]   # model = tables regenerated from the source (harness/tables.py)
 TRUSTED_BASE = ["Lean 4.33 kernel", "Spec/CardVerif.lean is my reading of the IBM 3624 PIN / offset algorithm", "correspondence harness and compiled driver"]
 RULE = ("PVK sizes 8/16/24 x random and structured decimalisation tables x offset/PIN lengths 4..16 x PAN lengths 0..19 x all windows "
         "0<=start, start+length<=len(PAN) x all 22 pad characters; distinct = distinct driver lines")
